@@ -479,6 +479,16 @@ class World:
             path = os.path.join(d, "data.json")
             with open(path, "w", encoding="utf-8") as fh:
                 _json.dump(obj, fh, ensure_ascii=(via == "str"))
+            if via == "str" and len(self.events) % 2:
+                # a RELATIVE path whose name begins like a URL scheme is still a local file
+                rel = ["http_prefixes.json", "ftp-mirror.json", "https.json"][len(self.events) % 3]
+                os.replace(path, os.path.join(d, rel))
+                cwd = os.getcwd()
+                try:
+                    os.chdir(d)
+                    return f(rel, delimiter=delim, strict=strict)
+                finally:
+                    os.chdir(cwd)
             return f(path if via == "str" else pathlib.Path(path), delimiter=delim, strict=strict)
         return self._derive(op, go, [], extra)
 
